@@ -319,3 +319,81 @@ func Harness_C16_CallWaitsForProgressHandler() {
 	vAssert("handler-finished-before-return", handlerDone && !early)
 	vCover("call-waited-for-handler")
 }
+
+// a cancelled call whose reply does not come within the response timeout; the
+// reply arrives late (or twice): it is dropped, later requests work, Close returns
+func Harness_C16_LateReplyAfterCancel() {
+	cl, rt := vNewClient(500 * time.Millisecond)
+	rt.holdCall = true
+	mode := []string{wamp.CancelModeKill, wamp.CancelModeKillNoWait, wamp.CancelModeSkip}[vChoice("cancel.mode", 3)]
+	vAssert("set-mode", cl.SetCallCancelMode(mode) == nil)
+	ctx, cancel := context.WithCancel(context.Background())
+	var err error
+	done := make(chan struct{})
+	go func() {
+		defer close(done)
+		_, err = cl.Call(ctx, "proc", nil, wamp.List{1}, nil, nil)
+	}()
+	vQuiesce()
+	call, ok := vFindReq[*wamp.Call](rt)
+	vAssert("call-sent", ok)
+	if !ok {
+		cancel()
+		return
+	}
+	cancel()
+	vQuiesce()
+	_, okc := vFindReq[*wamp.Cancel](rt)
+	vAssert("cancel-sent", okc)
+	// the router does not answer within the response timeout
+	vAdvance(int64(700 * time.Millisecond))
+	vQuiesce()
+	select {
+	case <-done:
+	default:
+		vAssert("cancelled-call-returns-after-the-response-timeout", false)
+		return
+	}
+	vAssert("call-reports-an-error", err != nil)
+	// now the answers trickle in
+	late := vChoice("late", 3)
+	if late >= 1 {
+		rt.send(&wamp.Error{Type: wamp.CALL, Request: call.Request, Error: wamp.ErrCanceled, Details: wamp.Dict{}})
+	}
+	if late == 2 {
+		rt.send(&wamp.Result{Request: call.Request, Details: wamp.Dict{}, Arguments: wamp.List{"late"}})
+	}
+	vQuiesce()
+	// the client still works
+	var serr error
+	sdone := make(chan struct{})
+	go func() {
+		defer close(sdone)
+		serr = cl.Subscribe("t", func(*wamp.Event) {}, nil)
+	}()
+	vQuiesce()
+	vAdvance(int64(700 * time.Millisecond))
+	vQuiesce()
+	select {
+	case <-sdone:
+		vAssert("later-request-answered", serr == nil)
+	default:
+		vAssert("later-request-returns", false)
+		return
+	}
+	cl.sess.Lock()
+	n := len(cl.awaitingReply)
+	cl.sess.Unlock()
+	vAssert("no-reply-slot-left-behind", n == 0)
+	cdone := make(chan struct{})
+	go func() { cl.Close(); close(cdone) }()
+	vQuiesce()
+	vAdvance(int64(2 * time.Second))
+	vQuiesce()
+	select {
+	case <-cdone:
+	default:
+		vAssert("close-returns", false)
+	}
+	vCover("late-reply-after-cancel-done")
+}
